@@ -193,6 +193,25 @@ def run(ctx, prop):
         outs, st = ctx.shards("eng-replay", bf, bf + ".trace")
         parts += outs
         stats += st
+    refused = ran_invalid = 0
+    if prop == "C01":
+        # the same behaviours on INVALID definitions (every wait-less router has a category that names an exit of another node):
+        # a definition like that is either refused when the flow is loaded or - should it get through - its runs still walk the graph
+        src_bf = bfiles[[p[0] for p in plans].index("all-2x1")]
+        xbf = os.path.join(ctx.work, "beh_crossexit.ndjson")
+        with open(xbf, "w") as w:
+            for l in open(src_bf):
+                b = json.loads(l)
+                if any(d["kind"] in ("split", "enter") for fl in b["def"] for d in fl):
+                    b["variant"] = "crossexit"
+                    w.write(json.dumps(b) + "\n")
+        outs, st = ctx.shards("eng-replay", xbf, xbf + ".trace")
+        parts += outs
+        refused = sum(s.get("refused", 0) for s in st)
+        ran_invalid = sum(s.get("behaviours", 0) for s in st) - refused
+        errs2 = sum(s.get("errors", 0) for s in st)
+        if errs2:
+            raise vlib.Infra(f"{errs2} cross-exit behaviours could not be materialised: {[e for s in st for e in (s.get('drift_examples') or [])][:2]}")
     nbeh = sum(s.get("behaviours", 0) for s in stats)
     ncalls = sum(s.get("calls", 0) for s in stats)
     drift = sum(s.get("drift", 0) for s in stats)
@@ -258,6 +277,7 @@ def run(ctx, prop):
                mc_action_coverage={a: t for a, (d, t) in sorted(mc.coverage.items())},
                behaviours_replayed=nbeh, engine_calls_replayed=ncalls, behaviours_with_wait=nontrivial,
                fixtures=nfix, fixture_calls=fcalls, distinct_trace_lines=nlines,
+               invalid_definitions_refused_at_load=refused, invalid_definitions_that_ran=ran_invalid,
                drift_calls=drift, drift_examples=drift_ex, generators=[p[0] for p in plans],
                predicate_failures=len(viols))
     return cov
